@@ -302,8 +302,10 @@ def rootnode_solver(A, B=None, BH=None,
 
     while len(levels) < max_levels and \
             int(levels[-1].A.shape[0]/get_blocksize(levels[-1].A)) > max_coarse:
-        _extend_hierarchy(levels, strength, aggregate, smooth,
-                          improve_candidates, diagonal_dominance, keep)
+        bottom = _extend_hierarchy(levels, strength, aggregate, smooth,
+                                   improve_candidates, diagonal_dominance, keep)
+        if bottom:
+            break
 
     ml = MultilevelSolver(levels, **kwargs)
     change_smoothers(ml, presmoother, postsmoother)
@@ -440,6 +442,10 @@ def _extend_hierarchy(levels, strength, aggregate, smooth, improve_candidates,
             R = T.T.conjugate()
         else:
             raise ValueError(f'Unrecognized prolongation smoother method: {fn!s}')
+
+    if P.shape[1] >= P.shape[0]:
+        # coarsening stalled: a further level would not be smaller
+        return True
 
     if keep:
         levels[-1].C = C                         # strength of connection matrix
